@@ -1,5 +1,6 @@
 """T-HOO (C01, C03, C04, C05, C06).  The same structure is instantiated for HCT and VHCT in hct.py."""
 from contracts.partition import treewf
+from pyvc.dsl import by_cases
 
 
 def tree_preds(reg):
@@ -61,7 +62,8 @@ def register(reg):
          "implies(n.visited_times != 0, n.u_value == xr(n.mean_reward + sqrt(2 * ln(A.rounds) / n.visited_times) "
          "+ A.nu * rpow(A.rho, n.depth)))")
     pred("PathOK", "P, path", "len(path) >= 1 and len(path) <= P.depth + 1 "
-                              "and all(path[k].depth == k and path[k] in P.node_list[k] for k in range(len(path)))")
+                              "and all(path[k].depth == k and path[k] in P.node_list[k] for k in range(len(path))) "
+                              "and all(path is not P.node_list[h] for h in range(P.depth + 1))")
     pred("Credited", "n, reward",
          "n.visited_times == old(n.visited_times) + 1 and len(n.rewards) == old(len(n.rewards)) + 1 "
          "and n.rewards[old(len(n.rewards))] == reward "
@@ -144,7 +146,9 @@ def register(reg):
         ("credited", "all(Credited(path[k], reward) for k in range(len(path)))", "C04"),
         ("others", "all(implies(not (%s[h][k] in path), Untouched(%s[h][k])) "
                    "for h in range(old(self.partition.depth) + 1) for k in range(old(len(%s[h]))))" % (NL, NL, NL), "C04"),
-        ("formula", "all(UFormula_HOO(self, %s[h][k]) %s)" % (NL, ALLN), "C05"),
+        by_cases("formula", "UFormula_HOO(self, %s[h][k])" % NL, ALLN,
+                 ["h <= old(self.partition.depth) and k < old(len(%s[h])) and %s[h][k] is old(%s[h][k])" % (NL, NL, NL),
+                  "%s[h][k] in end.children" % NL], props="C05"),
         BCONS_ALL,
         ("kids-new", "implies(end.children is not None, all(fresh(end.children[j]) and NodeInit(end.children[j]) "
                      "for j in range(len(end.children))))", "C06"),
@@ -157,7 +161,18 @@ def register(reg):
     W_END_SELF = {"end": ("ref:$N", "old(self.path[len(self.path) - 1])"), "path": ("list[ref:$N]", "old(self.path)")}
 
     def with_w(cl, w):
-        return [(c[0], c[1], c[2], w) for c in cl]
+        out = []
+        for c in cl:
+            if isinstance(c, tuple):
+                out.append((c[0], c[1], c[2], w))
+            else:
+                import copy
+                c2 = copy.copy(c)
+                c2.witness = w
+                if w is not W_END:
+                    c2.cases = None      # callers of updateAllTree get the un-cased clause from its contract
+                out.append(c2)
+        return out
 
     UPD_MOD = ["HOO_node.visited_times n where n in path", "HOO_node.mean_reward n where n in path",
                "list[real:reward] r where owner(r) in path and owner(r).rewards is r",
@@ -194,11 +209,38 @@ def register(reg):
        ensures=INV + [("root-split", "self.partition.depth == 1 and self.partition.root.children is not None", "C06"),
                       ("own", "fresh(self.partition) and self.partition.domain is domain", "C14")])
 
-    reg.cut("T_HOO.updateAllTree", "if#0", props="C04 C05 C06", clauses=[
-        ("formula", "all(UFormula_HOO(self, %s[h][k]) %s)" % (NL, ALLN)),
-        ("evidence", "AllNodes_Evidence(self.partition)"),
-        ("uinf", "AllNodes_UInf(self.partition)"),
-        ("kids-u", "implies(path[len(path) - 1].children is not None, all(path[len(path) - 1].children[j].u_value == inf "
-                   "and path[len(path) - 1].children[j].children is None "
-                   "for j in range(len(path[len(path) - 1].children))))"),
-    ])
+    # proof outline of updateAllTree: two strong cuts (everything needed later is restated; earlier quantified facts are dropped)
+    def sub_end(cl):
+        def r(t):
+            return (t.replace("end.", "path[len(path) - 1].").replace("(end)", "(path[len(path) - 1])")
+                    .replace(" is not end", " is not path[len(path) - 1]"))
+        out = []
+        for c in cl:
+            if isinstance(c, tuple):
+                out.append((c[0], r(c[1])))
+            else:
+                body, gens, cases = c.cases
+                out.append(by_cases(c.label, r(body), r(gens), [r(x) for x in cases], props=" ".join(sorted(c.props))))
+        return out
+    SAME_TREE = [
+        ("tree-same", "self.partition.depth == old(self.partition.depth) and all(%s[h] is old(%s[h]) and len(%s[h]) == old(len(%s[h])) "
+                      "for h in range(self.partition.depth + 1))" % (NL, NL, NL, NL)),
+        ("nodes-same", "all(%s[h][k] is old(%s[h][k]) and %s[h][k].children is old(%s[h][k].children) %s)" % (NL, NL, NL, NL, ALLN)),
+        ("path", "PathOK(self.partition, path) and path[len(path) - 1].children is None and self.rho < 1"),
+    ]
+    def lab(c):
+        return c[0] if isinstance(c, tuple) else c.label
+    CARRY = [(c[0], c[1]) for c in INV] + sub_end([c for c in AFTER if lab(c) in ("credited", "others")]) + [
+        ("formula", "all(UFormula_HOO(self, %s[h][k]) %s)" % (NL, ALLN))]
+    reg.cut("T_HOO.updateAllTree", "call:updateUvalueTree#0", props="C03 C04 C05 C06", strong=True, clauses=CARRY + SAME_TREE)
+    reg.cut("T_HOO.updateAllTree", "if#0", props="C03 C04 C05 C06", strong=True,
+            clauses=[(c[0], c[1]) for c in INV] + sub_end([c for c in AFTER if lab(c) != "Bcons"] + [RULE]) + [
+                ("decomp", "all((h <= old(self.partition.depth) and k < old(len(%s[h])) and %s[h][k] is old(%s[h][k])) "
+                           "or (%s[h][k] in path[len(path) - 1].children) %s)" % (NL, NL, NL, NL, ALLN)),
+                ("path", "PathOK(self.partition, path) and all(path[k] is old(path[k]) for k in range(len(path))) "
+                         "and len(path) == old(len(path))"),
+                ("kids-u", "implies(path[len(path) - 1].children is not None, all(path[len(path) - 1].children[j].u_value == inf "
+                           "and path[len(path) - 1].children[j].children is None "
+                           "and path[len(path) - 1].children[j] in %s[path[len(path) - 1].children[j].depth] "
+                           "for j in range(len(path[len(path) - 1].children))))" % NL),
+            ])
